@@ -39,7 +39,7 @@ def validate(ev_path, check):
     if ev.get('level') != check['level_claimed']['category']:
         problems.append('level %r != claimed %r' % (ev.get('level'), check['level_claimed']['category']))
     c = ev.get('coverage', {})
-    if ev.get('level') == 'proof' or 'obligations' in c:
+    if ev.get('level') == 'proof':
         if c.get('obligations', 0) < 1:
             problems.append('zero obligations')
         if c.get('discharged') != c.get('obligations'):
